@@ -33,6 +33,10 @@ var reviewedDeleters = map[string]string{
 }
 
 func runC07(p *Prog, r *Report) {
+	if want("C07.15") {
+		// a compaction deletes exactly its inputs and adds exactly its outputs (shared with C06)
+		ruleCompactionEdit(p, r, "C07.15")
+	}
 	if want("C07.1") {
 		r.Begin("C07.1", "E-ORD", "install before release: session.setVersion references the new version before releasing the current one (files shared by both stay referenced)", 1)
 		if fn := resolveFn(p, r, "leveldb", "(*session).setVersion"); fn != nil {
